@@ -98,6 +98,24 @@ pub fn replay(cases: &str, verdicts: &str) {
             // several targets in one call: each answered independently (first knot in the middle)
             let g3 = run(&[t, x[0], t]);
             v.check(judge(&g3, 3), &format!("{} multi", variant), &class, &c, json!(g3.as_ref().map(|r| fjs(r))));
+            // the answer is a function of the CONTENTS of the buffers at the time of the call (ISpec has no history): call, edit the same
+            // two buffers in place (same addresses and lengths: ordinates reflected and shifted, then the axis doubled), call again -
+            // each answer equals, bit for bit, the answer on fresh copies of the current contents
+            if v.cases % 3 == 0 {
+                let md = || mode_of(&c["mode"]);
+                let call = |xs: &[f64], ys: &[f64], tg: f64| guard(|| if variant == "checked" { interp1d_linear(xs, ys, &[tg], md()).to_vec() } else { interp1d_linear_unchecked(xs, ys, &[tg], md()).to_vec() });
+                let same = |a: &Option<Vec<f64>>, b: &Option<Vec<f64>>| match (a, b) { (Some(a), Some(b)) => a.len() == b.len() && a.iter().zip(b).all(|(p, q)| p.to_bits() == q.to_bits() || (p.is_nan() && q.is_nan())), (None, None) => true, _ => false };
+                let (mut xb, mut yb) = (x.clone(), y.clone());
+                let first = call(&xb, &yb, t);
+                let mut ok = same(&first, &g1);
+                for (i, o) in yb.iter_mut().enumerate() { *o = 3.0 - 2.0 * *o + i as f64; }
+                let after_y = call(&xb, &yb, t);
+                ok &= same(&after_y, &call(&xb.clone(), &yb.clone(), t));
+                for a in xb.iter_mut() { *a *= 2.0; }
+                let after_x = call(&xb, &yb, 2.0 * t);
+                ok &= same(&after_x, &call(&xb.clone(), &yb.clone(), 2.0 * t));
+                v.check(ok, &format!("{} buffers edited in place between calls", variant), &class, &c, json!({"first": first.as_ref().map(|r| fjs(r)), "after_ordinates_edited": after_y.as_ref().map(|r| fjs(r)), "after_axis_doubled": after_x.as_ref().map(|r| fjs(r))}));
+            }
         }
         // +-1 ulp around a knot (still inside the range): between the neighbouring ordinates
         if knot && mk != "panic" {
